@@ -2,6 +2,7 @@ use vbase::engine::{Ctx, Sub};
 
 pub mod c02;
 pub mod c03;
+pub mod c04;
 pub mod c05;
 pub mod c06;
 pub mod c07;
@@ -37,6 +38,7 @@ pub fn all() -> Vec<Prop> {
         Prop { id: "C14", run: c14::run, subs: c14::subs, rule: c14::RULE, assumptions: c14::ASSUMPTIONS },
         Prop { id: "C13", run: c13::run, subs: c13::subs, rule: c13::RULE, assumptions: c13::ASSUMPTIONS },
         Prop { id: "C20", run: c20::run, subs: c20::subs, rule: c20::RULE, assumptions: c20::ASSUMPTIONS },
+        Prop { id: "C04", run: c04::run, subs: c04::subs, rule: c04::RULE, assumptions: c04::ASSUMPTIONS },
     ]
 }
 
